@@ -45,6 +45,36 @@ def balanced(text: str) -> bool:
     return not stack and last == len(toks) - 1 and toks[-1].start[0] == src.count('\n') + 1
 
 
+REDOS_GUARD = True      # switched off by the harness when the timing probe shows that the tree under test is repaired (C05-F7)
+
+
+def redos_risk(text: str, limit=14) -> bool:
+    """pfst's _re_trailing_comma/_re_trailing_semicolon backtrack exponentially in the length of a run of blanks / newlines /
+    ')' / line continuations / comment lines that follows a node and is not followed by the separator (finding C05-F7); such
+    a run at the end of the text would hang the harness (the regex engine cannot be interrupted) -> the caller skips it."""
+    if not REDOS_GUARD:
+        return False
+    t = text
+    n = 0
+    while True:
+        t2 = t.rstrip(') \t\n\r\f\v\\')
+        n += len(t) - len(t2)
+        t = t2
+        i = t.rfind('\n')
+        last = t[i + 1:]
+        if last.lstrip().startswith('#'):
+            t = t[:i + 1] + last[:len(last) - len(last.lstrip())]
+            n += 1
+            continue
+        j = last.find('#')
+        if j > 0 and last[:j].rstrip() != last[:j]:
+            t = t[:i + 1] + last[:j]
+            n += 1
+            continue
+        break
+    return n >= limit
+
+
 # ---------------------------------------------------------------------------------------------------------------------
 # program index
 
@@ -502,6 +532,8 @@ def g_withitems(T):
     if _blank(T):
         return []
     r = _with(T, ', _ as _')
+    if r is None:
+        r = _with(T, '_ as _')      # T ends with its own trailing comma
     return r[:-1] if r is not None and len(r) >= 2 else None
 
 
@@ -1010,6 +1042,8 @@ def variants(text, block):
     v.append(('trail-comment-line', text + '\n# ü', 0, 0))
     v.append(('trail-newline', text + '\n', 0, 0))
     v.append(('lead-blank', '\n' + text, 1, 0))
+    v.append(('trail-blanks', text + ' ' * 40, 0, 0))              # skipped (redos_risk) while C05-F7 is unrepaired
+    v.append(('trail-blanks-comment', text + ' ' * 28 + '# é\n' + ' ' * 20, 0, 0))
     if not block:
         v.append(('lead-cont', '\\\n' + text, 1, 0))
         v.append(('lead-space', '  ' + text, 0, 2))
@@ -1038,3 +1072,232 @@ def shape(T):
             out.append(' ')
         out.append(w)
     return ''.join(out)[:40]
+
+
+# ---------------------------------------------------------------------------------------------------------------------
+# phrases: sequences re-assembled from elements with generated separator layouts (separators on their own following line
+# at assorted columns, trailing separators, comments, non-ASCII text on every line, NO line continuations), judged by
+# CPython on the genuine enclosing construct (the gates above): the expected nodes are the gate's nodes rebased from the
+# template to the phrase.
+
+MB_ATOMS = ['"é"', 'ü', "'日本'", 'ñ.é', 'f("ü")', '"é" "ü"', 'é[ü]', '-ñ', '(é)', '("ü", é)', '[ñ]', 'é if ü else ñ', 'not é', 'é or ü']
+PAT_ATOMS = ['1', '"é"', 'x', 'C(a, b=1)', '[a, "ü"]', '{"é": v}', 'None', 'ñ.b', '1 | 2', '(x)', '("é" as y)', '"é" "ü"', 'é', '-1']
+PAT_STARS = ['*_', '*rest', '*é']
+WITH_ATOMS = ['a', 'f("é") as b', '(c) as (d, e)', 'g as h.i', 'ü', '"é".x() as ñ', '(yield_) as y', 'a[0] as b[1]']
+TP_ATOMS = ['T', 'U: "é"', '*Ts', '**P', 'V: (int, "ü")', 'é', 'W: ñ']
+KW_ATOMS = ['k="é"', '**d', 'ñ=ü', 'key=(1)', '**{"é": 1}']
+ARG_LISTS = [['a', 'b: "é"', '/', 'c="ü"', '*args', 'd', 'e: ñ = "é"', '**kw'], ['é', 'ü=1'], ['a', '*', 'b', 'c="é"'], ['*a: "ü"', '**k: é'],
+             ['a: "é"', 'b'], ['x', '/', 'y']]
+LAM_LISTS = [['a', 'b', '/', 'c="ü"', '*args', 'd', 'e="é"', '**kw'], ['é', 'ü=1'], ['a', '*', 'b', 'c="é"'], ['*a', '**k'], ['x', '/', 'y']]
+
+# first line of the phrase inside the template of the mode's (must) gate: (line, byte column)
+ORIGIN = {'expr': (2, 0), 'expr_slice': (2, 0), 'expr_all': (2, 0), 'Tuple_elt': (2, 0), 'Tuple': (2, 0), '_arglikes': (2, 0),
+          '_arglike': (2, 0), 'expr_arglike': (2, 0), 'pattern': (3, 0), '_pattern_attrlikes': (3, 0), '_withitems': (2, 0),
+          'withitem': (2, 0), '_type_params': (2, 0), 'type_param': (2, 0), 'arguments': (2, 0), 'arguments_lambda': (2, 0),
+          'Slice': (2, 0)}
+CONTAINERS = {'_arglikes': ('_arglikes', 'arglikes'), '_pattern_attrlikes': ('_pattern_attrlikes', None), '_withitems': ('_withitems', 'items'),
+              '_type_params': ('_type_params', 'type_params')}
+
+
+def _last_len(t):
+    """(characters, bytes) of the last line of t"""
+    l = t.rsplit('\n', 1)[-1]
+    return len(l), len(l.encode())
+
+
+def _sep(rng, text, sep=',', trailing=False):
+    """a separator layout to append to `text`"""
+    ch, by = _last_len(text)
+    pads = [0, 1, max(by - 1, 0), by, max(ch - 1, 0), ch, rng.randint(0, 8), ch + 2]
+    c = rng.random()
+    tail = '' if trailing else rng.choice([' ', '', '\n', '\n  ', '  # ü\n', ' '])
+    if c < 0.2:
+        return sep + (tail or ('' if trailing else ' '))
+    if c < 0.3:
+        return ' ' + sep + tail
+    if c < 0.75:
+        return '\n' + ' ' * rng.choice(pads) + sep + tail            # separator on its own following line
+    if c < 0.85:
+        return '  # c é\n' + ' ' * rng.choice(pads) + sep + tail
+    if c < 0.93:
+        return '\n\n' + ' ' * rng.choice(pads) + sep + (tail if not trailing else rng.choice(['', '\n', '  # é']))
+    return sep + '\n' + ' ' * rng.randint(0, 6) if not trailing else sep + rng.choice(['\n', '  # é', ' '])
+
+
+def _join(rng, elems, sep=',', trailing=None):
+    t = ''
+    for i, e in enumerate(elems):
+        if i and t.endswith('\n'):
+            t += ' ' * rng.choice([0, 0, 1, 4])
+        t += e
+        if i < len(elems) - 1:
+            t += _sep(rng, t, sep)
+    if trailing is None:
+        trailing = rng.random() < 0.6
+    if trailing:
+        t += _sep(rng, t, sep, trailing=True)
+    return t
+
+
+def _tok_extent(T):
+    """((line, bytecol) of the first significant token, (line, bytecol) end of the last one) in T's own coordinates"""
+    lines = ('(\n' + T + '\n)').split('\n')
+    try:
+        toks = [t for t in tokenize.generate_tokens(io.StringIO('(\n' + T + '\n)').readline) if t.type not in SKIP_TOK]
+    except Exception:
+        return None
+    if len(toks) < 3:
+        return None
+    a, b = toks[1], toks[-2]
+    return ((a.start[0] - 1, len(lines[a.start[0] - 1][:a.start[1]].encode())),
+            (b.end[0] - 1, len(lines[b.end[0] - 1][:b.end[1]].encode())))
+
+
+def _program_elems(P, rng, n):
+    """self-contained single-element expression texts from a program"""
+    if P is None:
+        return []
+    infstr = _under_fstring(P.tree)
+    cands = [x for x in ast.walk(P.tree) if isinstance(x, ast.expr) and _all_load(x) and id(x) not in infstr
+             and not isinstance(x, (ast.Starred, ast.Slice, ast.Tuple, ast.Yield, ast.YieldFrom, ast.NamedExpr, ast.GeneratorExp))]
+    rng.shuffle(cands)
+    out = []
+    for x in cands[:4 * n]:
+        s, e = P.grow(*span(x), maxlevels=1)[-1] if rng.random() < 0.3 else span(x)
+        t = P.text(s, e)
+        if len(t) > 60 or t.count('\n') > 2 or '\\\n' in t or not balanced(t):
+            continue
+        m = _p('[' + t + '\n, 0]', 'eval')
+        if m is None or not isinstance(m.body, ast.List) or len(m.body.elts) != 2:
+            continue
+        out.append(t)
+        if len(out) >= n:
+            break
+    return out
+
+
+def phrase_texts(P, rng, n):
+    """[(family, text)]"""
+    out = []
+    pel = _program_elems(P, rng, 6)
+    for _ in range(n):
+        fam = rng.choice(['tuple', 'tuple', 'tuple', 'tuple-star', 'slices', 'slice', 'args', 'patterns', 'patterns', 'attrlikes', 'withitems',
+                          'type_params', 'arguments', 'lambda'])
+        rich = rng.random() < 0.6          # non-ASCII text in every element (hence on every line)
+
+        def ex():
+            if rich or not pel:
+                a = rng.choice(MB_ATOMS)
+                if pel and rng.random() < 0.4:
+                    a = a + ' + ' + rng.choice(pel) if rng.random() < 0.5 else rng.choice(pel) + ' + ' + a
+                return a
+            return rng.choice(pel)
+
+        if fam == 'tuple':
+            k = rng.randint(1, 4)
+            out.append((fam, _join(rng, [ex() for _ in range(k)], trailing=True if k == 1 else None)))
+        elif fam == 'tuple-star':
+            k = rng.randint(1, 3)
+            el = [ex() for _ in range(k)]
+            i = rng.randrange(k)
+            el[i] = '*' + rng.choice(['a', 'é', '"ü"', 'not a', 'a or "é"', '(é)', 'x.y', 'a[0]'])
+            out.append((fam, _join(rng, el, trailing=None if k > 1 else rng.random() < 0.85)))
+        elif fam == 'slices':
+            k = rng.randint(1, 3)
+            el = [rng.choice([ex(), ex() + ':' + ex(), ':', '::' + ex(), ex() + ':', '"é":ü:ñ']) for _ in range(k)]
+            out.append((fam, _join(rng, el, trailing=None if k > 1 else rng.random() < 0.5)))
+        elif fam == 'slice':
+            parts = [rng.choice(['', ex()]) for _ in range(rng.choice([2, 3]))]
+            out.append((fam, _join(rng, parts, sep=':', trailing=False)))
+        elif fam == 'args':
+            k = rng.randint(1, 4)
+            el = [ex() if rng.random() < 0.7 else '*' + rng.choice(['a', 'é', 'not a']) for _ in range(k)]
+            el += [rng.choice(KW_ATOMS) for _ in range(rng.randint(0, 2))]
+            out.append((fam, _join(rng, el)))
+        elif fam == 'patterns':
+            k = rng.randint(1, 4)
+            el = [rng.choice(PAT_ATOMS) for _ in range(k)]
+            if rng.random() < 0.35:
+                el[rng.randrange(k)] = rng.choice(PAT_STARS)
+            out.append((fam, _join(rng, el, trailing=True if k == 1 and rng.random() < 0.8 else None)))
+        elif fam == 'attrlikes':
+            el = [rng.choice(PAT_ATOMS) for _ in range(rng.randint(0, 3))] + [f'k{i}={rng.choice(PAT_ATOMS)}' for i in range(rng.randint(0, 2))]
+            if el:
+                out.append((fam, _join(rng, el)))
+        elif fam == 'withitems':
+            out.append((fam, _join(rng, [rng.choice(WITH_ATOMS) for _ in range(rng.randint(1, 3))])))
+        elif fam == 'type_params':
+            out.append((fam, _join(rng, rng.sample(TP_ATOMS, rng.randint(1, 3)))))
+        elif fam in ('arguments', 'lambda'):
+            lst = rng.choice(ARG_LISTS if fam == 'arguments' else LAM_LISTS)
+            keep = [a for a in lst if rng.random() < 0.75] or lst[:1]
+            out.append((fam, _join(rng, keep)))
+    return out
+
+
+FAMILY_MODES = {
+    'tuple': ['expr', 'Tuple', 'expr_all', 'expr_slice', 'Tuple_elt', '_arglikes'],
+    'tuple-star': ['expr', 'Tuple', 'expr_all', 'expr_slice', 'Tuple_elt', '_arglikes'],
+    'slices': ['Tuple', 'expr_all', 'expr_slice', 'Tuple_elt'],
+    'slice': ['expr_slice', 'expr_all', 'Tuple_elt', 'Slice'],
+    'args': ['_arglikes'],
+    'patterns': ['pattern'],
+    'attrlikes': ['_pattern_attrlikes'],
+    'withitems': ['_withitems'],
+    'type_params': ['_type_params'],
+    'arguments': ['arguments'],
+    'lambda': ['arguments_lambda'],
+}
+
+
+def phrase_frags(family, T):
+    """Frag per applicable mode whose genuine construct accepts T (CPython), expected nodes in template coordinates"""
+    out = []
+    if not balanced(T) or '\r' in T:
+        return out
+    for mode in FAMILY_MODES[family]:
+        gmode = 'expr_slice' if mode == 'Slice' else mode
+        g = gate(gmode, T, 'must')
+        if g is None:
+            continue
+        l0, c0 = ORIGIN[mode]
+        nodes = g
+        if mode == 'Slice' and not isinstance(g[0], ast.Slice):
+            continue
+        if mode == 'expr':
+            # the parenthesized template gives an undelimited tuple the location of the parentheses: take the positions
+            # from the subscript embedding (CPython's own location of the undelimited tuple), same structure required
+            s = g_slice(T)
+            if s is None:
+                continue
+            sn = s[0].elts[0] if _lone_star_tuple(s[0]) else s[0]
+            if dump(sn, False) != dump(g[0], False):
+                continue
+            nodes = [sn]
+        if mode == 'pattern' and isinstance(g[0], ast.MatchSequence) and g[0].lineno == 2:
+            # open sequence pattern: elements from the parenthesized template, extent = first .. last significant token
+            ext = _tok_extent(T)
+            if ext is None:
+                continue
+            n2 = copy.copy(g[0])
+            n2.lineno, n2.col_offset = ext[0][0] + 2, ext[0][1]
+            n2.end_lineno, n2.end_col_offset = ext[1][0] + 2, ext[1][1]
+            nodes = [n2]
+            if '#' not in T:        # cross-check the extent rule with CPython on the continuation-joined genuine construct
+                c = _case('match _:\n case \\\n' + T.replace('\n', '\\\n') + ': pass')
+                if c is not None and (c.pattern.lineno, c.pattern.col_offset, c.pattern.end_lineno, c.pattern.end_col_offset) != \
+                        (n2.lineno, n2.col_offset, n2.end_lineno, n2.end_col_offset):
+                    out.append(('oracle-disagree', mode, T))
+                    continue
+        if mode in ('expr', 'Tuple', 'expr_all', 'expr_slice', 'Tuple_elt') and isinstance(nodes[0], ast.Tuple) and '#' not in T:
+            # cross-check: the continuation-joined text as an expression statement has the same geometry
+            if all(not isinstance(x, (ast.Slice,)) for x in nodes[0].elts):
+                m = _p(T.replace('\n', '\\\n'))
+                if m is not None and len(m.body) == 1 and isinstance(m.body[0], ast.Expr) and isinstance(m.body[0].value, ast.Tuple):
+                    v = m.body[0].value
+                    if (v.lineno + 1, v.col_offset, v.end_lineno + 1, v.end_col_offset) != \
+                            (nodes[0].lineno, nodes[0].col_offset, nodes[0].end_lineno, nodes[0].end_col_offset):
+                        out.append(('oracle-disagree', mode, T))
+                        continue
+        out.append(Frag(mode, 'phrase:' + family, T, l0, c0, nodes, CONTAINERS.get(mode)))
+    return out
